@@ -247,6 +247,7 @@ def run(ck, F):
     SPELLED = {   # route -> (constant returned, the spelling that must select it)
         'get_linkage(String)': ('c_link', 'C'), 'get_linkage(String)/C++': ('cxx_link', 'C++'),
         'get_linkage(word)': ('c_link', 'C'), 'get_label(Identifier)': ('default_cst', 'default'),
+        'get_decltype(Expr)': ('nullptr_cst', None),
     }
     for name, fid, pred in routes:
         f = F.need_fn(fid)
@@ -265,11 +266,15 @@ def run(ck, F):
                     continue
                 eq = equality_of(*st.conds[-1])
                 seenc.append(contracts.render_conds(st.conds[-1:], st, {})[:80])
-                if eq and any(isinstance(x, tuple) and x[:1] == ('k',) and x[1] == tuple(sp.encode()) for side in eq for x in c07._subterms(side)) \
-                        and any(x == ('param', 0) for side in eq for x in c07._subterms(side)):
+                # the argument is compared with the constant's documented spelling (a word literal), or with the constant itself /
+                # something read from the constant (its own name, its language string)
+                anchored = eq and any((isinstance(x, tuple) and x[:1] == ('k',) and sp is not None and x[1] == tuple(sp.encode()))
+                                      or (isinstance(x, tuple) and x[:1] == ('global',) and x[1].endswith('::' + cst))
+                                      for side in eq for x in c07._subterms(side))
+                if anchored and any(x == ('param', 0) for side in eq for x in c07._subterms(side)):
                     good = True
-            ck.check(R5, name, good, f'{fid}: no path answers with {cst} on the strength of a comparison of the argument with the spelling '
-                     f'"{sp}" (paths that return it are decided by {seenc or "nothing"})', loc=f['loc'], fn=fid)
+            ck.check(R5, name, good, f'{fid}: no path answers with {cst} on the strength of a comparison of the argument with ' +
+                     (f'the spelling "{sp}" or with ' if sp else '') + f'the constant itself (paths that return it are decided by {seenc or "nothing"})', loc=f['loc'], fn=fid)
             continue
         try:
             paths = contracts.factory_contract(F, f, S)
